@@ -8,7 +8,8 @@ Tie (T): C02_guards_as_modelled — the regenerated guard table of the C++ equal
 
 Statement of the property, clause by clause:
   (a) every read returns what a byte-array model predicts            C02_views_in_bounds, C02_handle_in_bounds,
-      (reads/writes go to exactly the addressed bytes of the buffer)  C02_write_read, C02_copyTo_reads, C02_copy_moves_bytes
+      (reads/writes go to exactly the addressed bytes of the buffer)  C02_write_read, C02_copyTo_reads, C02_copy_moves_bytes,
+                                                                      C02_writes_confined
   (b) slices and casts share their parent's bytes                     C02_slice_within_parent, C02_slice_alias, C02_cast_alias,
                                                                       C02_slice_write_parent_read, C02_parent_write_slice_read,
                                                                       C02_alias_persistent, C02_wrap_shares_host
@@ -22,6 +23,7 @@ import OccaProofs.Lemmas.Mem
 import OccaProofs.Lemmas.MemReject
 import OccaProofs.Lemmas.MemAlias
 import OccaProofs.Lemmas.MemGuards
+import OccaProofs.Lemmas.MemConfined
 
 namespace Occa.Mem.C02
 open Occa.Mem
@@ -130,6 +132,18 @@ theorem C02_copy_moves_bytes {s : State} (h : Inv s) {d src : Nat} {cnt doff sof
 example : results init [.malloc 0 4 1 (some [1, 2, 3, 4]), .copyFromMem 0 0 3 1 0, .copyToHost 0 4 (-1) 0] =
     [.ok none, .ok none, .ok (some [some 1, some 1, some 2, some 3])] := by decide
 
+/-- Memory safety of the model, for EVERY operation: a byte of an existing buffer that lies outside
+    the range of the handle written through (`Dest`: the receiver of `copyFrom`, the destination of a
+    device-to-device copy; no handle at all for every other operation) keeps its value.  So neither a
+    copy nor slice / cast / clone / malloc / free / setDtype can modify memory it was not pointed at. -/
+theorem C02_writes_confined {s : State} (h : Inv s) (op : Op) (hop : ∀ hb off data, op ≠ .hostWrite hb off data)
+    (q : View) (j : Nat) (hq : q.buf < s.bufs.length)
+    (hout : ∀ p, Dest s op = some p → q.buf ≠ p.buf ∨ q.off + j < p.off ∨ p.off + p.size ≤ q.off + j) :
+    byteAt (step s op).1 q j = byteAt s q j :=
+  step_writes_confined h op hop q j hq hout
+
+example : Dest (run init [.malloc 0 4 1 none, .malloc 1 4 1 none]) (.copyFromMem 1 0 4 0 0) = some ⟨3, 0, 4, 1⟩ := by decide
+
 /-! ### (b) slices, offsets and casts share their parent's bytes -/
 
 /-- A successful `d = src.slice(off, cnt)` (or `src + off`, `cnt = -1`) yields a view of the same
@@ -162,10 +176,6 @@ theorem C02_slice_alias {s : State} {d src : Nat} {off cnt : Int} {p : View} {o 
 example : view? (step (run init [.malloc 0 8 2 none, .slice 1 0 2 5]) (.slice 2 1 1 (-1))).1 2 = some ⟨2, 6, 8, 2⟩ := by
   decide
 
-theorem view?_of_same {s s' : State} (hm : s'.mems = s.mems) (hv : s'.vars = s.vars) (x : Nat) :
-    view? s' x = view? s x := by
-  unfold view?; rw [hm, hv]
-
 /-- End to end: take a slice `d = src.slice(off, cnt)`, write `k` elements at element `i` through the
     slice, then read `k` elements at element `off + i` through the PARENT: the read succeeds and
     returns exactly the bytes written. -/
@@ -192,7 +202,7 @@ theorem C02_slice_write_parent_read {s s1 s2 : State} (h : Inv s) {d src cap : N
   obtain ⟨w0, w1, w2, w3, wm, wv, wspec⟩ := copyFromHost_spec hi1 hc h2
   have hi2 : Inv s2 := by
     have := step_inv hi1 (.copyFromHost d data k i); rw [h2] at this; exact this
-  have hp2 : view? s2 src = some p := by rw [view?_of_same wm wv]; exact hp1
+  have hp2 : view? s2 src = some p := by rw [view_of_same wm wv]; exact hp1
   have hcb : countBytes c k = (p.esz : Int) * k := by unfold countBytes; rw [if_neg hk, he]
   have hcbp : countBytes p k = (p.esz : Int) * k := by unfold countBytes; rw [if_neg hk]
   rw [he] at w1 w2
@@ -258,7 +268,7 @@ theorem C02_parent_write_slice_read {s s1 s2 s3 : State} (h : Inv s) {d src cap 
   obtain ⟨w0, w1, w2, w3, wm, wv, wspec⟩ := copyFromHost_spec hi1 hp1 h2
   have hi2 : Inv s2 := by
     have := step_inv hi1 (.copyFromHost src data k (off + i)); rw [h2] at this; exact this
-  have hc2 : view? s2 d = some c := by rw [view?_of_same wm wv]; exact hc
+  have hc2 : view? s2 d = some c := by rw [view_of_same wm wv]; exact hc
   obtain ⟨_, r0, r1, r2, out, ro, rl, rspec⟩ := copyToHost_spec hi2 hc2 h3
   have hcb : countBytes c k = (p.esz : Int) * k := by unfold countBytes; rw [if_neg hk, he]
   have hcbp : countBytes p k = (p.esz : Int) * k := by unfold countBytes; rw [if_neg hk]
